@@ -50,31 +50,44 @@ Example ex_all_corners :
       {| mX := 2; mY := 0; mT := 2; mS := 0 |}; {| mX := 2; mY := 2; mT := 2; mS := 0 |}].
 Proof. split; vm_compute; reflexivity. Qed.
 
-(* ---- a CANCELLED AnalyzeAll lists moves that do not attain the reported value ----
+(* ---- the code BEFORE the repair: a CANCELLED AnalyzeAll lists moves that do not attain the reported value ----
    p5 = 3x3 after a1 c3 b2 b1 c1 (Black to move); MakePrecise, NoSort, EvaluateWinner, Depth 4, no table, fresh engine, context cancelled
    inside the 400th leaf evaluation (that is during the depth-4 iteration).  Analyze reports its deepest completed iteration (depth 3,
-   value 0 - correct); the second pass of AnalyzeAll then runs with the flag set, every child search that does not cut off at its first
-   grandchild is abandoned and returns 0, which equals the value: TWELVE lines are reported, of which only two (b1> and Sc2) attain the
+   value 0 - correct); the second pass of AnalyzeAll then ran with the flag set, every child search that does not cut off at its first
+   grandchild is abandoned and returns 0, which equals the value: TWELVE lines were reported, of which only two (b1> and Sc2) attain the
    value; e.g. a2 loses by force (value -WinBase).  The uninterrupted depth-3 call lists the two.
-   The real engine does the same (replayed: depth=3 value=0 canceled=true evals=413, 12 lines). *)
+   The real engine did the same before the repair (replayed: depth=3 value=0 canceled=true evals=413, 12 lines).
+   The REPAIRED code stops at the first child search that ends with the flag set: one line (Analyze's), Canceled = true. *)
 Definition ms5 : list rmove := [M 2 0 0 0; M 2 2 2 0; M 2 1 1 0; M 2 1 0 0; M 2 2 0 0]%Z%N.
 Definition p5 : position := match replay start3 ms5 with Ok p => p | _ => start3 end.
 Definition cfg4wn := mk_cfg 4 true true true false 1.
 Definition cfg3wn := mk_cfg 3 true true true false 1.
 Definition a2 := {| mX := 0; mY := 1; mT := 2; mS := 0 |}.
 
-Definition cancelled_obs :=
-  let '(sk, (pvs, v, d, c)) := analyze_all_cancel gen_basis cfg4wn 400 (new_state 0) p5 in
+(* (number of lines, value, depth, Stats.Canceled, flag seen at the end, a2 is among the first moves) *)
+Definition cancelled_obs (pinned : bool) :=
+  let '(sk, (pvs, v, d, c)) := analyze_all_gen pinned gen_basis cfg4wn 400 (new_state 0) p5 in
   (length pvs, v, d, c, cancelled 400 sk, existsb (rmove_eqb a2) (map (hd move0) pvs)).
 Definition uninterrupted_obs :=
   let '(pvs', v', d', c') := snd (analyze_all gen_basis cfg3wn (new_state 0) p5) in (length pvs', v', d', c').
 
-Example cancelled_lists_losing_moves :
-  cancelled_obs = (12%nat, 0, 3, true, true, true) /\ 
-  (match mvp gen_basis p5 a2 with Ok q => - nmx gen_basis evaluate_winner 2 q | _ => 0 end) = - Eval.WinBase /\ 
-  nmx gen_basis evaluate_winner 3 p5 = 0 /\ 
-  length (spec_best cfg4wn p5 3 0) = 2%nat /\ 
+Example cancelled_lists_losing_moves_pinned :
+  cancelled_obs true = (12%nat, 0, 3, true, true, true) /\
+  (match mvp gen_basis p5 a2 with Ok q => - nmx gen_basis evaluate_winner 2 q | _ => 0 end) = - Eval.WinBase /\
+  nmx gen_basis evaluate_winner 3 p5 = 0 /\
+  length (spec_best cfg4wn p5 3 0) = 2%nat /\
   uninterrupted_obs = (2%nat, 0, 3, false).
 Proof.
   split; [vm_compute; reflexivity|]. split; [vm_compute; reflexivity|]. split; [vm_compute; reflexivity|]. split; vm_compute; reflexivity.
 Qed.
+
+Example cancelled_fixed : cancelled_obs false = (1%nat, 0, 3, true, true, false).
+Proof. vm_compute. reflexivity. Qed.
+
+(* the flag flips DURING the second pass (q4, MakePrecise, NoSort, EvaluateWinner, Depth 3: Analyze takes 184 leaf evaluations, the whole
+   uninterrupted AnalyzeAll 282 and lists b2-, c1, Sc1): the repaired code reports a prefix, flagged as cancelled *)
+Definition heads_k (k : Z) := heads (analyze_all_cancel gen_basis cfg3wn k (new_state 0) q4).
+Example cancelled_during_second_pass :
+  heads_k 0 = ([b2dn; c1; Sc1], 0, 3, false) /\ heads_k 250 = ([b2dn], 0, 3, true) /\ heads_k 270 = ([b2dn; c1], 0, 3, true) /\
+  heads_k 281 = ([b2dn; c1; Sc1], 0, 3, true).
+Proof. split; [|split; [|split]]; vm_compute; reflexivity. Qed.
